@@ -64,6 +64,8 @@ struct HCpca : Harness {
     p.seti("npc", (int)wr.range(1, std::min(minw, 3 + (int)wr.below(6))));
     p.setd("rho", wr.uniform(0.2, 0.8));
     p.setu("data.seed", wr.next() >> 4);
+    // blocks measured in different units (different instruments): per-block factor 10^e; option 0 keeps the unit, so it gets the wide range
+    if (wr.chance(0.4)) { std::vector<std::string> u; bool keep = p.geti("scaling") == 0; for (int b = 0; b < nb; b++) { char t[32]; snprintf(t, sizeof t, "%.3f", keep ? wr.uniform(-4.0, 4.0) : wr.uniform(-1.0, 3.0)); u.push_back(t); } p.setlist("block_unit_exp", u); }
     return p;
   }
 
@@ -99,14 +101,16 @@ struct HCpca : Harness {
     for (int i = 0; i < n; i++) for (int j = 0; j < ptot; j++) { LD v = 0; for (int k = 0; k < r; k++) v += U[i][k] * s[k] * V[j][k]; Xall[i][j] = (double)v; }
     for (int j = 0; j < ptot; j++) { double off = dr.uniform(-30, 30); if (scaling == 5 && fabs(off) < 2) off = off < 0 ? -3 : 3; for (int i = 0; i < n; i++) Xall[i][j] += off; }
     std::vector<Mat> blocks; { int c0 = 0; for (int w : widths) { Mat B(n, std::vector<double>(w)); for (int i = 0; i < n; i++) for (int j = 0; j < w; j++) B[i][j] = Xall[i][c0 + j]; blocks.push_back(B); c0 += w; } }
+    if (p.has("block_unit_exp")) { auto u = p.list("block_unit_exp"); for (int b = 0; b < nb && b < (int)u.size(); b++) { double f = pow(10.0, atof(u[b].c_str())); for (auto &r : blocks[b]) for (double &v : r) v *= f; } o.counters["probe.blocks_in_different_units"]++; }
     char cfg[200]; snprintf(cfg, sizeof cfg, "C09 n=%d blocks=%s scaling=%d npc=%d nproc=%d", n, p.get("widths").c_str(), scaling, npc, nproc);
     o.cfg = cfg;
     int plan_strategy = p.has("sched.switches") ? SIM_REPLAY : (int)p.geti("sched.strategy");
 
     // reference concatenation: each block preprocessed identically (library preprocessing, trusted), divided by sqrt(width)
     Mat Xc(n, std::vector<double>(ptot));
+    std::vector<Mat> Epre;  // the preprocessed blocks themselves
     { sim_cfg sc; sim_cfg_default(&sc); sc.detect_races = 0; sc.nproc = 1; sim_begin_run(&sc);
-      int c0 = 0; for (int b = 0; b < nb; b++) { PreArg pa{&blocks[b], scaling, {}}; sim_guard(call_pre, &pa); double m = sqrt((double)widths[b]); for (int i = 0; i < n; i++) for (int j = 0; j < widths[b]; j++) Xc[i][c0 + j] = pa.E[i][j] / m; c0 += widths[b]; }
+      int c0 = 0; for (int b = 0; b < nb; b++) { PreArg pa{&blocks[b], scaling, {}}; sim_guard(call_pre, &pa); Epre.push_back(pa.E); double m = sqrt((double)widths[b]); for (int i = 0; i < n; i++) for (int j = 0; j < widths[b]; j++) Xc[i][c0 + j] = pa.E[i][j] / m; c0 += widths[b]; }
       sim_end_run(nullptr); }
     LMat E = to_l(Xc); LMat G = lgram(E); LVec ev; LMat Vv; ljacobi(G, ev, Vv);
     LD tr = 0; for (LD v : ev) tr += v;
@@ -162,6 +166,22 @@ struct HCpca : Harness {
       double v = M.block_expvar[k][b];
       if (!(v >= -1e-9 && v <= 100 + 1e-9)) { char m[160]; snprintf(m, sizeof m, "block %d explained variance after component %d is %.10g", b, k, v); o.fail("block-variance-range", m); break; }
       if (k && v < M.block_expvar[k - 1][b] - 1e-9) { char m[200]; snprintf(m, sizeof m, "block %d cumulative explained variance decreases: %.10g after %.10g", b, v, M.block_expvar[k - 1][b]); o.fail("block-variance-not-cumulative", m); break; }
+    }
+    // ... and they are what "cumulative explained variance of block b after k components" means: the share of the preprocessed block's
+    // sum of squares removed by deflating with the model's own super scores and block loadings
+    if (!o.violation && (int)Epre.size() == nb && (int)M.block_loadings.size() == nb) {
+      for (int b = 0; b < nb && !o.violation; b++) {
+        if ((int)M.block_loadings[b].size() != widths[b]) continue;
+        LMat R = to_l(Epre[b]); LD ss0 = 0; for (auto &r : R) for (LD v : r) ss0 += v * v;
+        if (!(ss0 > 0)) { o.counters["skipped.block_without_variance"]++; continue; }
+        for (int k = 0; k < npc && !o.violation; k++) {
+          if ((int)M.block_loadings[b][0].size() <= k) break;
+          LD ssk = 0; for (int i = 0; i < n; i++) for (int j = 0; j < widths[b]; j++) { R[i][j] -= (LD)M.super_scores[i][k] * M.block_loadings[b][j][k]; ssk += R[i][j] * R[i][j]; }
+          LD want = (1 - ssk / ss0) * 100; double got = M.block_expvar[k][b];
+          if (fabsl(want - got) > 1e-6L) { char m[260]; snprintf(m, sizeof m, "block %d: stored cumulative explained variance after component %d is %.10g, deflating the preprocessed block with the model's super scores and block loadings removes %.10Lg %% (scaling %d)", b, k, got, want, scaling); o.fail("block-variance-value", m); }
+        }
+      }
+      o.counters["probe.block_variance_recomputed"]++;
     }
     // projecting the training tensor reproduces the super scores
     if (!o.violation) {
